@@ -185,7 +185,7 @@ theorem C19_reduce_is_fold {β : Type} (rules : AList NT (AList DP (List NT)))
     reduceDet rules f t v start info = viaDeriv f v (derivDet rules t start info) :=
   reduceDet_eq rules f t v start info
 
-/-! ## Unambiguous layer (after the proposed fixes C19-F1, C19-F2) -/
+/-! ## Unambiguous layer (code as it is: fix C19-F2 applied, start factor omitted as in C04-F1) -/
 
 /-- **C19_norm (U).** At every non-terminal with at least one tagged alternative, the weights of
     all (rule, alternative) pairs sum to `1 - ε·(M(M-1)/2 + C·M)`, where `M`, `C` are the numbers
@@ -325,17 +325,62 @@ theorem C19_toProb_u (tags : AList NT TagsU) (st : AList NT ℝ) :
   unfold toProbU normaliseU expTagsU expStartU massU
   simp [List.map_map, Function.comp_def]
 
-/-- **C19_consistent (U).** If `log_probability t` returns `lp`, then `t` has a derivation `d`
-    from a start symbol `S0` and `exp lp` = (weight of `S0`) × (product of the weights of the
-    (rule, alternative) steps of `d`), the weights being `exp` of the tags — by `C19_toProb_u`,
-    `C19_norm_u`, `C19_start_norm` these are the weights of the converted grammar exactly when
-    `total_variable_order = False`, and up to the factor `specNorm` per step otherwise. -/
+/-- `to_prob_u_grammar` keeps `exp(tag)` unchanged at the non-terminals whose weights already sum
+    to 1 (by `C19_norm_u`: every non-terminal when `total_variable_order = False`). -/
+theorem C19_toProb_u_exact (tags : AList NT TagsU) (st : AList NT ℝ)
+    (h : ∀ e ∈ tags, massU e.2 = 1) : (toProbU tags st).1 = expTagsU tags := by
+  rw [C19_toProb_u]
+  unfold expTagsU
+  apply List.map_congr_left
+  intro e he
+  rw [h e he]
+  simp
+
+/-- **C19_consistent (U).** If `log_probability t` returns `lp`, then `exp lp` is what
+    `ProbUGrammar.probability` — as implemented: the product of the RULE weights along the
+    derivation, the start weight is not a factor (C04-F1) — returns on the weights `exp(tag)`.
+    By `C19_toProb_u(_exact)` and `C19_norm_u` these are the weights of `to_prob_u_grammar()`
+    exactly when `total_variable_order = False` (second statement), and up to the factor
+    `specNorm` per step otherwise. -/
 theorem C19_consistent_u (rules : AList NT (AList DP (List Alt))) (starts : List NT)
     (tags : AList NT TagsU) (st : AList NT ℝ) (t : Prog) (lp : ℝ)
-    (h : logProbabilityU rules starts tags st t = some lp) :
-    ∃ S0 ∈ starts, ∃ d ∈ altsU rules t S0 [],
-      derivWeightU (expTagsU tags) (expStartU st) S0 d = some (Real.exp lp) :=
-  consistent_u rules starts tags st t lp h
+    (h : logProbabilityU rules starts tags t = some lp) :
+    probabilityU rules starts (expTagsU tags) t = Real.exp lp
+    ∧ ((∀ e ∈ tags, massU e.2 = 1) → probabilityU rules starts (toProbU tags st).1 t = Real.exp lp) := by
+  refine ⟨consistent_u rules starts tags t lp h, ?_⟩
+  intro hm
+  rw [C19_toProb_u_exact tags st hm]
+  exact consistent_u rules starts tags t lp h
+
+/-- The exact relation to the distribution that includes the start symbols, for ANY number of
+    start symbols: the derivation found begins at a start symbol `S0`, and its probability
+    (start weight × rule weights) is `exp(start tag of S0) · exp(log_probability t)`.
+    The full statement of the property ("= probability of the derivation") therefore fails by
+    exactly the start weight: known finding C04-F1 (= C19-F1), witness `finding_C19_F1`. -/
+theorem C19_consistent_u_start (rules : AList NT (AList DP (List Alt))) (starts : List NT)
+    (tags : AList NT TagsU) (st : AList NT ℝ) (t : Prog) (lp : ℝ)
+    (h : logProbabilityU rules starts tags t = some lp) :
+    ∃ S0 ∈ starts, ∃ d ∈ altsU rules t S0 [], ∀ s, AList.lookup S0 st = some s →
+      derivWeightU (expTagsU tags) (expStartU st) S0 d = some (Real.exp s * Real.exp lp) :=
+  consistent_u_start rules starts tags st t lp h
+
+/-- **C19_consistent_u_partial.** Under the decidable hypothesis "single start symbol"
+    (`starts = [S0]`, start table `st = [(S0, s)]`, normalised as `C19_start_norm` proves),
+    `exp(log_probability t)` IS the probability of the derivation in the distribution including
+    the start weight.
+    Full statement (false, C04-F1): the same for every `starts`. -/
+theorem C19_consistent_u_partial (rules : AList NT (AList DP (List Alt))) (S0 : NT)
+    (tags : AList NT TagsU) (s : ℝ) (t : Prog) (lp : ℝ)
+    (hnorm : sumL ([(S0, s)].map (fun e : NT × ℝ => (ExpLog.exp e.2 : ℝ))) = 1)
+    (h : logProbabilityU rules [S0] tags t = some lp) :
+    ∃ d ∈ altsU rules t S0 [], derivWeightU (expTagsU tags) (expStartU [(S0, s)]) S0 d = some (Real.exp lp) := by
+  obtain ⟨S, hS, d, hd, hw⟩ := consistent_u_start rules [S0] tags [(S0, s)] t lp h
+  have hSS : S = S0 := by simpa using hS
+  subst hSS
+  have hs1 : Real.exp s = 1 := by
+    rw [sumL_eq] at hnorm; simpa using hnorm
+  refine ⟨d, hd, ?_⟩
+  rw [hw s (by simp [AList.lookup]), hs1, one_mul]
 
 /-- **C19_encode (U).** `encode t` is the indicator of the positions of the primitive rules of the
     derivations of `t` (from every start symbol; exactly one derivation for an unambiguous grammar). -/
@@ -410,23 +455,28 @@ example : ∃ tags st, tensor2logProbU exLU (1/5 : ℝ) (1/10^7) true exRulesU [
   rw [exLU_eq]
   simp [tensor2logProbU, allSomeL, tagEntryU, exRulesU, exLUlit, AList.lookup, primTagsU, slice, normalize,
     plus, one, x0, cst, setSlice, logSoftmax, startTagsU, AList.insert, setInner]
-/-- hypothesis of C19_consistent_u -/
-example : ∃ lp, logProbabilityU exRulesU [1]
+/-- hypothesis of C19_consistent_u / _start / _partial (single start symbol `S1`, start tag 0) -/
+example : (∃ lp, logProbabilityU exRulesU [1]
     ([(1, [(plus, [([2, 3], (-1 : ℝ))]), (one, [([], -2)])]), (2, [(x0, [([], -2)]), (cst, [([], -3)]), (one, [([], -1)])]),
-      (3, [(x0, [([], -2)]), (one, [([], -1)])])]) [(1, 0)] exProg = some lp := by
-  simp [logProbabilityU, exProg, reduceU, altsU, altsUArgs, deriveU, exRulesU, AList.lookup, addTagU, tagU,
-    plus, one, x0, cst, allSomeL, foldlO]
+      (3, [(x0, [([], -2)]), (one, [([], -1)])])]) exProg = some lp)
+    ∧ sumL ([((1 : NT), (0 : ℝ))].map (fun e : NT × ℝ => (ExpLog.exp e.2 : ℝ))) = 1 := by
+  constructor
+  · simp [logProbabilityU, exProg, reduceU, altsU, altsUArgs, deriveU, exRulesU, AList.lookup, addTagU, tagU,
+      plus, one, x0, cst, allSomeL, foldlO]
+  · simp [sumL]
 /-- hypothesis of C19_encode_u -/
 example : encodeU exLU exRulesU [1] exProg = some [1, 0, 0, 1, 0] := by decide
 
 end Examples
 
-/-! ## Findings: the code before the proposed fixes violates the property (witnesses on the model) -/
+/-! ## Findings (witnesses on the model): C19-F1 = C04-F1 is open in the code; C19-F2 was repaired (97880ac) -/
 
-/-- **finding C19-F1** (`log_probability` of the U-layer before the fix).  Two start symbols `S1 -> a`,
+/-- **finding C19-F1 (= C04-F1)**: with several start symbols `exp(log_probability t)` (equivalently
+    `ProbUGrammar.probability t`) differs from the probability of the derivation in the distribution
+    that includes the start symbols by exactly the start weight.  Two start symbols `S1 -> a`,
     `S2 -> b`, all rule tags 0 (weight 1), start tags `log(1/2)` each (what the zero tensor gives):
-    the old `log_probability a` is 0, i.e. probability 1, whereas the converted grammar gives the
-    derivation the probability 1/2 (start weight × rule weight). -/
+    `log_probability a = 0`, `probability a = 1`, whereas the derivation `S1 -> a` has probability
+    `1/2 = (start weight 1/2) × exp(log_probability a)`. -/
 theorem finding_C19_F1 :
     let a : DP := ⟨.prim, "a"⟩
     let b : DP := ⟨.prim, "b"⟩
@@ -434,19 +484,19 @@ theorem finding_C19_F1 :
     let tags : AList NT TagsU := [(1, [(a, [([], 0)])]), (2, [(b, [([], 0)])])]
     let st : AList NT ℝ := [(1, Real.log (1/2)), (2, Real.log (1/2))]
     let d : List StepU := [⟨dummyNT, 1, a, [], []⟩]
-    logProbabilityUOld rules [1, 2] tags (.node a []) = some (0 : ℝ)
+    logProbabilityU rules [1, 2] tags (.node a []) = some (0 : ℝ)
+    ∧ probabilityU rules [1, 2] (expTagsU tags) (.node a []) = (1 : ℝ)
     ∧ altsU rules (.node a []) 1 [] = [d] ∧ altsU rules (.node a []) 2 [] = []
-    ∧ derivWeightU (expTagsU tags) (expStartU st) 1 d = some (1/2 : ℝ)
-    ∧ Real.exp 0 ≠ (1/2 : ℝ)
-    ∧ logProbabilityU rules [1, 2] tags st (.node a []) = some (0 + Real.log (1/2) + 0) := by
+    ∧ derivWeightU (expTagsU tags) (expStartU st) 1 d = some ((1/2 : ℝ) * Real.exp 0)
+    ∧ Real.exp 0 ≠ (1/2 : ℝ) * Real.exp 0 := by
   refine ⟨?_, ?_, ?_, ?_, ?_, ?_⟩
-  · simp [logProbabilityUOld, reduceU, altsU, deriveU, AList.lookup, allSomeL, foldlO, addTagU, tagU]
+  · simp [logProbabilityU, reduceU, altsU, deriveU, AList.lookup, allSomeL, foldlO, addTagU, tagU]
+  · simp [probabilityU, reduceU, altsU, deriveU, AList.lookup, allSomeL, foldlO, mulTagU, tagU, expTagsU]
   · simp [altsU, deriveU, AList.lookup, dummyNT]
   · simp [altsU, deriveU, AList.lookup]
   · simp [derivWeightU, expTagsU, expStartU, AList.lookup, foldlO, mulTagU, tagU]
     rw [Real.exp_neg, Real.exp_log (by norm_num : (0 : ℝ) < 2)]
   · simp
-  · simp [logProbabilityU, reduceU, altsU, deriveU, AList.lookup, allSomeL, foldlO, addTagU, tagU]
 
 /-- **finding C19-F2** (U-layer before the fix).  A non-terminal whose only rule is a variable with
     two alternatives (a variable used as a function): the old code gives each alternative the whole
